@@ -369,6 +369,122 @@ func (e *Engine) structuralObligations(prop string) []*Oblig {
 	case "C02", "C03", "C12", "C07", "C09", "C10", "C13", "C19":
 		out = append(out, e.encapsulated(prop)...)
 	}
+	if prop == "C15" {
+		out = append(out, e.determinism(prop)...)
+	}
 	out = append(out, e.pipelineObligations(prop)...)
 	return out
+}
+
+// ---------------------------------------------------------------- C15: determinism, no hidden state
+
+// coneOf returns the repository functions statically reachable from the roots.
+func (e *Engine) coneOf(roots []string) []*ssa.Function {
+	seen := map[*ssa.Function]bool{}
+	var out []*ssa.Function
+	var visit func(fn *ssa.Function)
+	visit = func(fn *ssa.Function) {
+		if fn == nil || seen[fn] || fn.Blocks == nil {
+			return
+		}
+		if !e.inRepoStrict(fn) && !(fn.Pkg != nil && e.inlinePkgs[fn.Pkg.Pkg.Path()]) {
+			return
+		}
+		seen[fn] = true
+		out = append(out, fn)
+		for _, b := range fn.Blocks {
+			for _, ins := range b.Instrs {
+				switch x := ins.(type) {
+				case *ssa.Call:
+					visit(x.Call.StaticCallee())
+				case *ssa.Defer:
+					visit(x.Call.StaticCallee())
+				case *ssa.Go:
+					visit(x.Call.StaticCallee())
+				case *ssa.MakeClosure:
+					if f, ok := x.Fn.(*ssa.Function); ok {
+						visit(f)
+					}
+				}
+			}
+		}
+	}
+	for _, k := range roots {
+		visit(e.fnByKey[k])
+	}
+	sort.Slice(out, func(i, j int) bool { return out[i].String() < out[j].String() })
+	return out
+}
+
+func (e *Engine) determinism(prop string) []*Oblig {
+	roots := extraRoots["C07"]
+	cone := e.coneOf(roots)
+	// stores to package variables anywhere in the repository
+	writtenOutsideInit := map[*ssa.Global][]string{}
+	for _, fn := range e.repoFunctions() {
+		for _, b := range fn.Blocks {
+			for _, ins := range b.Instrs {
+				if st, ok := ins.(*ssa.Store); ok {
+					if g, ok := addrRoot(st.Addr).(*ssa.Global); ok && !(isInitFn(fn) && fn.Pkg == g.Pkg) {
+						writtenOutsideInit[g] = append(writtenOutsideInit[g], e.pos(ins))
+					}
+				}
+			}
+		}
+	}
+	var hidden, nondet []string
+	channelOK := map[string]bool{"HandleMessages": true, "get": true, "GetNextByte": true, "Close": true}
+	for _, fn := range cone {
+		for _, b := range fn.Blocks {
+			for _, ins := range b.Instrs {
+				switch x := ins.(type) {
+				case *ssa.Store:
+					if g, ok := addrRoot(x.Addr).(*ssa.Global); ok && !isInitFn(fn) {
+						hidden = append(hidden, fmt.Sprintf("%s: %s writes package variable %s", e.pos(ins), fn.Name(), g.Name()))
+					}
+				case *ssa.UnOp:
+					if g, ok := x.X.(*ssa.Global); ok && x.Op.String() == "*" {
+						if w := writtenOutsideInit[g]; len(w) > 0 {
+							hidden = append(hidden, fmt.Sprintf("%s: %s reads package variable %s, which is written at %s", e.pos(ins), fn.Name(), g.Name(), w[0]))
+						}
+					}
+					if x.Op.String() == "<-" && !channelOK[fn.Name()] {
+						nondet = append(nondet, fmt.Sprintf("%s: channel receive in %s", e.pos(ins), fn.Name()))
+					}
+				case *ssa.Go:
+					nondet = append(nondet, fmt.Sprintf("%s: goroutine started in %s", e.pos(ins), fn.Name()))
+				case *ssa.Select:
+					nondet = append(nondet, fmt.Sprintf("%s: select in %s", e.pos(ins), fn.Name()))
+				case *ssa.Send:
+					if !channelOK[fn.Name()] {
+						nondet = append(nondet, fmt.Sprintf("%s: channel send in %s", e.pos(ins), fn.Name()))
+					}
+				case *ssa.Range:
+					if _, isMap := x.X.Type().Underlying().(*types.Map); isMap {
+						nondet = append(nondet, fmt.Sprintf("%s: iteration over a map in %s (order is not deterministic)", e.pos(ins), fn.Name()))
+					}
+				case *ssa.Call:
+					if callee := x.Call.StaticCallee(); callee != nil && callee.Pkg != nil {
+						p := callee.Pkg.Pkg.Path()
+						n := callee.Name()
+						if (p == "time" && (n == "Now" || n == "Since" || n == "Until")) || p == "math/rand" || p == "crypto/rand" || (p == "os" && (n == "Getenv" || n == "Getpid")) {
+							nondet = append(nondet, fmt.Sprintf("%s: %s calls %s.%s", e.pos(ins), fn.Name(), p, n))
+						}
+					}
+				}
+			}
+		}
+	}
+	var names []string
+	for _, fn := range cone {
+		names = append(names, shortKey(fn.String()))
+	}
+	o1 := structOblig("no-hidden-state/decode-display-cone", "no-hidden-state",
+		fmt.Sprintf("no function reachable from framing, decoding and display (%d functions) writes a package variable, and every package variable they read is assigned only by its package initialiser", len(cone)),
+		[]string{prop}, hidden)
+	o1.Detail = strings.Join(names, ", ")
+	o2 := structOblig("deterministic/decode-display-cone", "deterministic",
+		"no function reachable from framing, decoding and display starts a goroutine, selects, iterates over a map, reads the clock or a random source; channel operations occur only in the stream handler and the byte channel",
+		[]string{prop}, nondet)
+	return []*Oblig{o1, o2}
 }
